@@ -319,6 +319,20 @@ Fixpoint accepts (st : state) (evs : list event) : bool :=
   | e :: r => enabled st e && accepts (step st e) r
   end.
 
+(* VARIANT used only to show that the CAS in streamWrapper.Close is essential (not the code that exists):
+   Close split into  check `closed == 0`  /  stream.Close()  /  `closed = 1`; wg.Done().  Two goroutines
+   that both pass the check (wclose_check in the same state) both run the rest (wclose_finish): *)
+Definition wclose_check (st : state) (w : nat) : bool := mem w (delivered st) && negb (w_closed (wr st w)).
+Definition wclose_finish (st : state) (w : nat) : state :=
+  let x := wr st w in
+  let s := w_sess x in
+  {| nsess := nsess st; sess_of := updf (sess_of st) s (done1 (sess_of st s)); nwr := nwr st;
+     wr := updf (wr st) w {| w_sess := s; w_ord := w_ord x; w_closed := true |};
+     ncl := ncl st; cl_of := cl_of st; cap := cap st;
+     backlog := backlog st; delivered := delivered st; closing := closing st; aclosed := aclosed st;
+     enq_log := enq_log st; recv_log := recv_log st; lmark := lmark st; closeCh := closeCh st; lreleased := lreleased st;
+     panic := panic st || done_panics (sess_of st s) |}.
+
 (* VARIANT used only to show that the ORDER of listener.Close's steps matters (not the code that exists):
    the same machine, but a Close call drains the backlog right after its CAS and closes closeCh only
    afterwards (CStart -> CDrain -> CSig -> CRel).  Props/C19.v refutes the sessions-end statement for it. *)
